@@ -17,6 +17,7 @@ def run(ck):
         F = ck.facts(cfg)
         ck.guard("C08-R1", r1_spill_table, ck, F)
         ck.guard("C08-R2", r2_threshold, ck, F)
+        ck.guard("C08-R2", r2_rounding, ck, F)
         ck.guard("C08-R3", r3_grow, ck, F)
         ck.guard("C08-R4", r4_chunk_cap, ck, F)
         ck.guard("C08-R5", r5_creator, ck, F)
@@ -263,6 +264,24 @@ def _double_or_required(F, rb, size):
     else:
         ok = bounded(rb, x)
     return ok, "the larger of twice the current buffer and what the contents plus the new entry need"
+
+
+def r2_rounding(ck, F, R="C08-R2"):
+    """the buffer actually allocated exceeds the size asked for by less than one EntryBound: the request is rounded up
+    to the next multiple of size_of::<EntryBound>() and by nothing else (a next-power-of-two rounding turns a 10 MiB
+    fixed budget into a 16 MiB buffer)"""
+    nb = F.body(A("aligned_new"))
+    sz = F.adts[A("entry_bound")].get("size")
+    rounds = []
+    other = []
+    for s, c, t in nb.calls():
+        last = callee_name(c).rsplit("::", 1)[-1]
+        if last in ("checked_next_multiple_of", "next_multiple_of"):
+            a = nb.arg_exprs(s)
+            rounds.append(const_val(a[1]) == sz)
+        elif "next_power_of_two" in last or last in ("pow", "checked_pow", "shl", "checked_shl"):
+            other.append(last)
+    ck.ob(R, "allocation-rounding", rounds == [True] and not other, f"EntryBoundAlignedBuffer::new rounds the requested size up to a multiple of {sz} only (roundings: {len(rounds)}, other size transformations: {other})", nb)
 
 
 def r3_grow(ck, F, R="C08-R3"):
